@@ -1,6 +1,9 @@
 package ergo
 
-import "errors"
+import (
+	"errors"
+	"strings"
+)
 
 // C12: state is a total function of the log; reads are pure; history only grows.
 
@@ -124,3 +127,55 @@ func zzC12_EpicOrder() {
 
 // CUT for the show purity unit: the children listing (topological sort) is display logic.
 func zzNoChildrenCut(epicID string, g *Graph) []*Task { return nil }
+
+// Legacy title migration runs at the end of every replay over the body of each item whose title
+// is blank; the engine summarises deriveTitleAndBodyFromLegacy by a pair of uninterpreted
+// functions, so its totality is decided here, on bytes: the heading test it applies to every line
+// never panics, for ANY line of up to 4 bytes.
+func zzC12_LegacyHeadingTotal() {
+	s := zzBytes("line", 4)
+	for i := 0; i < len(s); i++ {
+		zzAssume(s[i] < 0x80)
+	}
+	h := isLegacyHeading(s)
+	t := zzTrimSpaceASCII(s)
+	if len(t) == 0 || t[0] != '#' {
+		zzAssert(!h, "C12/legacy: a line that does not start with '#' is not a heading")
+	}
+	zzReach("end")
+}
+
+// strings.TrimSpace on ASCII bytes (library code replaced for the byte-level unit; bytes >= 0x80
+// are excluded by the unit's assumption, so Unicode spaces do not arise).
+func zzTrimSpaceASCII(s string) string {
+	i, j := 0, len(s)
+	for i < j && zzIsSpaceByte(s[i]) {
+		i++
+	}
+	for j > i && zzIsSpaceByte(s[j-1]) {
+		j--
+	}
+	return s[i:j]
+}
+
+func zzIsSpaceByte(c byte) bool {
+	return c == ' ' || c == '\t' || c == '\n' || c == '\r' || c == '\v' || c == '\f'
+}
+
+// strings.TrimPrefix, as in the library (replaced for the byte-level unit only).
+func zzTrimPrefixBytes(s, prefix string) string {
+	if strings.HasPrefix(s, prefix) {
+		return s[len(prefix):]
+	}
+	return s
+}
+
+// strings.IndexFunc on ASCII bytes (one rune per byte under the unit's assumption).
+func zzIndexFuncASCII(s string, f func(rune) bool) int {
+	for i := 0; i < len(s); i++ {
+		if f(rune(s[i])) {
+			return i
+		}
+	}
+	return -1
+}
